@@ -2,7 +2,7 @@
 virtual-time loop with fake streams."""
 import asyncio
 
-from engine.hlib import check, done
+from engine.hlib import check, done, reraise
 from engine.vloop import Peer, VLoop, VTime, make_streams
 from gallia.services.uds import server as SV
 from gallia.transports import TargetURI
@@ -67,8 +67,7 @@ def split_read(kind, m1, m2, cut, t1, t2, timeout_us, has_timeout):
 
     task = loop.run(main())
     check(task.done(), "read blocks forever although both messages were delivered")
-    if task.exception() is not None:
-        raise task.exception()
+    reraise(task)
     timed_out = task.result()
     # when is the first line complete?
     line1 = 2 * len(m1) + 1
@@ -160,8 +159,7 @@ def server_loop(m1, m2, cut, t1, t2):
 
     task = loop.run(main())
     check(task.done(), "server loop does not terminate after EOF")
-    if task.exception() is not None:
-        raise task.exception()
+    reraise(task)
     check(st.seen == [m1, m2], "server loop did not see exactly the two requests, in order")
     exp = b""
     for m in (m1, m2):
